@@ -90,7 +90,9 @@ def lines_leg(ctx, parent, corr_broken):
              1: "F47b (/repo 73f7348, committed): a failed read is a warning, the file is appended to unsealed"}.get(srw, "unknown")
     ctx.corr["lines_probe"] = {"one_write": one_write, "seals_tail": seals, "seal_read_warns": srw_probe, "unreadable_file_injected_by": inject,
                                "regenerated_skeleton": gen, "sealTornTail_shape": shape}
-    if srw != 1 or srw_probe != 1:
+    if srw_probe == -1 and srw == 1:
+        ctx.notes.append("sealTornTail probe unavailable in this environment (%s): regenerated skeleton only" % inject)
+    if srw != 1 or srw_probe not in (1, -1):
         corr_broken.append("sealTornTail on an unreadable file: probe on the real updateFile() says %s (%s), regenerated skeleton says %s; "
                            "accepted: only F47b = /repo 73f7348 (1) for both (0 = F47 alone: the tool exits on a file it cannot read)"
                            % (srw_probe, inject, srw))
